@@ -342,7 +342,12 @@ def to_json_call(tokens):
     more_kwargs = tokens["kwargs"]
     if more_kwargs:
         for kv in list(more_kwargs):
-            kwargs.update(kv)
+            if isinstance(kv, ParseResults):
+                # SEVERAL name => value PARAMETERS ARRIVE ONE LEVEL DEEPER THAN A SINGLE ONE
+                for d in kv:
+                    kwargs.update(d)
+            else:
+                kwargs.update(kv)
 
     return ParseResults(tokens.type, tokens.start, tokens.end, [Call(op, args, kwargs)], tokens.failures,)
 
